@@ -163,6 +163,20 @@ pub fn run(ctx: &mut Ctx) {
                 }
             }
         }
+        // the two kinds whose list is a *set* in the crate (allowed mods, banned addresses): the peer may well name one entry
+        // twice, or send an all-zero list — the count byte then no longer equals the number of distinct entries
+        for ty in [65u8, 67] {
+            for n in [2usize, 3, 5, 16, 62] {
+                if !compressed && 8 + 4 * n > 255 { continue; }
+                let pats: Vec<Box<dyn Fn(usize) -> u32>> = vec![Box::new(|_| 0u32), Box::new(|_| 0x0a01_0203), Box::new(|i| if i % 2 == 0 { 0x0012_3456 } else { 0x00ab_cdef }), Box::new(|i| (i as u32 / 2) + 1), Box::new(|i| if i == 0 { 7 } else { i as u32 })];
+                for pat in pats.iter() {
+                    let mut f = vec![0u8, ty, 1, n as u8, 0, 0, 0, 0];
+                    for i in 0..n { f.extend_from_slice(&pat(i).to_le_bytes()); }
+                    f[0] = size_byte(compressed, f.len());
+                    hostile_case(ctx, &ls, compressed, &f, "set-with-repeated-entries");
+                }
+            }
+        }
         ctx.exhaustive_domains.push(format!("every byte value 0..255 in every enum-typed, bool, count and hand-written-codec position of every kind, mode {}", if compressed { "c" } else { "u" }));
         // text that is valid UTF-8 but not ASCII in every text position that is parsed further (the version text of IS_VER goes
         // through a number parser whose notion of "numeric" is Unicode's): multi-byte numerics, letters, symbols, at every offset
